@@ -68,6 +68,7 @@ var assumptionText = map[string]string{
 	"A-T0":     "the byte-sequence theory T0 (specs/theory/T0.smt2); 18 of its axioms are proved in Lean over List (Fin 256), the others are assumed",
 	"A-SOLVER": "at least one of z3 4.8.12, z3 5.1.0, cvc5 1.0 is sound on each query it answers unsat",
 	"A-SSA":    "go/packages + go/ssa build faithful SSA of /repo's working tree; govc's translation of the SSA subset is correct",
+	"A-DET":    "a function of this library whose body has no source of nondeterminism returns a value determined by its arguments (used to name that value by an uninterpreted spec function, e.g. packimg)",
 	"A-CEIL":   "int(math.Ceil(float64(n)*7/8)) equals (7n+7)/8 (integer division) for 0 <= n < 2^22 (float64 is exact there; validated by a bounded enumeration, not proved)",
 	"A-TIME":   "time.Now returns some time value and does not panic",
 	"A-MD5":    "crypto/md5 is a function from byte strings to 16-octet digests",
